@@ -169,7 +169,7 @@ def run(ctx):
         cases.append(g)
     reqs = [{'op': 'diff', 'old': sigs.abs_sig(old), 'new': sigs.abs_sig(new)} for _, old, new, _, _ in cases]
     outs = ctx.driver.ask(reqs) if ctx.driver else [None] * len(reqs)
-    w_rel = w_eq = w_null = w_stale = None
+    w_rel = w_eq = w_null = w_stale = w_rel_retype = None
     for (spec, old, new, muts, tags), out in zip(cases, outs):
         evorig.install_models({'apps': [a for a in dbrig.spec_from_sig(new)['apps'] if a['id'] == 'vapp']})
         try:
@@ -202,6 +202,9 @@ def run(ctx):
                                 for a in new.app_sigs for m in a.model_sigs for f in m.field_sigs)
             if agree and explicit_null and 'non-null initial value' in after['sim_error']:
                 w_null = w_null or rep
+            elif "missing 2 required positional arguments: 'to' and 'on_delete'" in after['sim_error'] and \
+                    retyped_to_relation(old, new):
+                w_rel_retype = w_rel_retype or rep
             else:
                 ctx.fail(None, 'the hinted evolution is rejected by the simulation: %s' % after['sim_error'], rep)
             continue
@@ -240,6 +243,9 @@ def run(ctx):
         ctx.fail(FINDING_RELATED, 'hinted ChangeField(related_model=...) does not update the relation target', w)
     elif w_rel is not None:
         ctx.fail(None, 'residual related_model difference', w_rel)
+    if w_rel_retype is not None:
+        ctx.fail('F55', 'the hinted ChangeField that re-types a field to a relation type carries no related_model: '
+                 'simulating it cannot construct the field', w_rel_retype)
     if w_stale is not None:
         ctx.fail(FINDING_STALE, 'for a re-typed field whose column type is unchanged the hinted ChangeField updates '
                  'instead of replacing the attributes, so attributes the new field no longer has stay', w_stale)
@@ -252,6 +258,20 @@ def run(ctx):
         ctx.fail(FINDING_EQ, '`==` is False although diff() is empty both ways (default stated explicitly)', w6)
     elif w_eq is not None:
         ctx.fail(None, '`==` and `diff()` disagree', w_eq)
+
+
+def retyped_to_relation(old, new):
+    """some field that exists on both sides changes its type to ForeignKey / OneToOneField"""
+    for a in new.app_sigs:
+        oa = old.get_app_sig(a.app_id)
+        for m in a.model_sigs:
+            om = oa.get_model_sig(m.model_name) if oa is not None else None
+            for f in m.field_sigs:
+                of = om.get_field_sig(f.field_name) if om is not None else None
+                if of is not None and of.field_type is not f.field_type and \
+                        f.field_type.__name__ in ('ForeignKey', 'OneToOneField'):
+                    return True
+    return False
 
 
 def residual_only_related(after):
